@@ -39,3 +39,44 @@ def match(prop, violation, extra=None):
     except Exception:   # pylint: disable=broad-except
       continue
   return None
+
+
+# ---------------------------------------------------------------------------------------------
+# Matchers for the engine-history corpus (violation records built by shared.clause_violations)
+# ---------------------------------------------------------------------------------------------
+def _cells(v):
+  out = []
+  for d in v.get("context", {}).get("diffs", []):
+    if d.get("kind") != "cells":
+      return None        # structural difference: never matched by a cell-level finding
+    for r, a, b in d["cells"]:
+      out.append((d["t"], d["c"], r, a, b))
+  return out
+
+
+@matcher("pyequal_bool_num")
+def _pyequal_bool_num(v):
+  """Every differing cell is a Python-equal bool/number pair (True vs 1, False vs 0)."""
+  cells = _cells(v)
+  if not cells:
+    return False
+  ok = ({"b1", "#1"}, {"b0", "#0"})
+  return all({a, b} in ok for (_t, _c, _r, a, b) in cells)
+
+
+@matcher("numrepr_after_typechange")
+def _numrepr_after_typechange(v):
+  """
+  Redo/undo of a column type change: the data cells are equal as numbers, but the in-memory
+  int/float representation differs, so only FORMULA cells reading the column differ.
+  """
+  ctx = v.get("context", {})
+  cells = _cells(v)
+  if not cells or ctx.get("tag") not in ("undo", "redo"):
+    return False
+  typechange = any(a[0] == "ModifyColumn" and len(a) > 3 and "type" in a[3]
+                   for a in ctx.get("of_stored", []))
+  if not typechange:
+    return False
+  cols = ctx.get("cols", {})
+  return all(cols.get("%s.%s" % (t, c), {}).get("isFormula") for (t, c, _r, _a, _b) in cells)
